@@ -31,6 +31,9 @@ type Exec struct {
 	targets []*target
 	rets    []*retState
 	defers  []*deferred
+	// opaqueAddrArgs: while evaluating the arguments of an intrinsic that a call-site rule names
+	// (the intrinsic itself works on the argument expressions), `&x.f` arguments are opaque values
+	opaqueAddrArgs bool
 }
 
 func (x *Exec) info() *types.Info { return x.fn.pkg.TypesInfo }
